@@ -166,6 +166,14 @@ func (w *WSUT) Obs() []int64 {
 
 func (w *WSUT) Arrive(cancelled bool) int {
 	ctx, cancel := context.WithCancel(context.Background())
+	if len(w.Callers)%3 == 1 {
+		// every third caller brings a context with a deadline of its own, far beyond the scenario: it never fires, and
+		// it changes nothing about the limiter's own timers
+		c2, cancel2 := context.WithDeadline(ctx, time.Now().Add(6*time.Hour))
+		ctx = c2
+		inner := cancel
+		cancel = func() { cancel2(); inner() }
+	}
 	if cancelled {
 		cancel()
 	}
